@@ -21,6 +21,7 @@ from ..core import (And, Iff, Implies, Not, Or, PyExc, SAny, SBool, SNum, SStr, 
                     Unsupported, cur, ite, py_eq)
 from .pandas_lite import RowSpace, _always, _i, _term, _wrap, _zb, rx, SymSet
 from ..interp import OtherException
+from . import pandas_lite as PL
 
 CHECK_OUTPUT_KEY = "check_output"
 
@@ -171,11 +172,26 @@ class Expr:
         return Expr(ev, self.name)
 
     def fill_null(self, v):
+        """null -> v (a value or an expression, e.g. pl.lit); NaN is a value and stays"""
+
         def ev(fr):
             a = self.ev(fr)
-            return Col(lambda i: ite(SBool(a.null(i)), v, a.at(i)), lambda i: z3.BoolVal(False), a.kind)
+            w = v.ev(fr) if isinstance(v, Expr) else _lit_col(v)
+            return Col(lambda i: ite(SBool(a.null(i)), w.at(i), a.at(i)), lambda i: z3.And(a.null(i), w.null(i)), a.kind,
+                       nan=lambda i: z3.If(a.null(i), w.nan(i), a.nan(i)))
 
-        return Expr(ev, self.name)
+        return Expr(ev, self.name, multi=self.multi)
+
+    def fill_nan(self, v):
+        """NaN -> v; nulls stay null"""
+
+        def ev(fr):
+            a = self.ev(fr)
+            w = v.ev(fr) if isinstance(v, Expr) else _lit_col(v)
+            return Col(lambda i: ite(SBool(a.nan(i)), w.at(i), a.at(i)), lambda i: z3.Or(a.null(i), z3.And(a.nan(i), w.null(i))), a.kind,
+                       nan=lambda i: z3.And(a.nan(i), w.nan(i)))
+
+        return Expr(ev, self.name, multi=self.multi)
 
     def alias(self, name):
         e = Expr(self.ev, name, multi=self.multi)
@@ -299,12 +315,18 @@ class _StrNS:
     def contains(self, pattern, literal=False, **kw):
         if literal:
             return self._pt(lambda v: SBool(z3.Contains(_term(v), _term(pattern))))
+        if isinstance(pattern, PL.RxPattern):
+            # polars takes pattern TEXT: a compiled python pattern is not one ("argument 'pattern': 'Pattern' object cannot be converted")
+            cur().ghost["interp"].raise_py(TypeError, "polars str.contains: pattern must be text")
         inner = _anchored_group(pattern)
         if inner is not None:
             # regex axiom: searching "^(?:" + p + ")" is matching p at the start of the string (re.match).
             # There is deliberately NO such axiom for "^" + p (false for a top-level alternation).
-            return self._pt(lambda v: rx("match", inner, v))
-        return self._pt(lambda v: rx("search", pattern, v))
+            flags, inner = _inline_flags(inner)
+            return self._pt(lambda v: rx("match", inner, v, flags))
+        # regex axiom: a leading inline group "(?ims)" + p is p compiled with those flags (re and the rust regex crate agree)
+        flags, rest = _inline_flags(pattern)
+        return self._pt(lambda v: rx("search", rest, v, flags))
 
     def starts_with(self, p):
         return self._pt(lambda v: SBool(z3.PrefixOf(_term(p), _term(v))))
@@ -329,8 +351,65 @@ def _flatten_concat(t):
     return [t]
 
 
+def _pieces(pattern):
+    """a pattern text as a list of concrete str / z3 string terms (f-strings and concatenations flattened, adjacent text merged)"""
+    from ..values import Fmt
+
+    out = []
+
+    def add(x):
+        if isinstance(x, Fmt):
+            for q in x.parts:
+                add(q)
+        elif isinstance(x, str):
+            if x:
+                out.append(out.pop() + x if out and isinstance(out[-1], str) else x)
+        elif isinstance(x, SStr):
+            for t in _flatten_concat(x.z):
+                add(t.as_string()) if z3.is_string_value(t) else out.append(t)
+        else:
+            raise Unsupported(f"pattern piece {type(x).__name__}")
+
+    add(pattern)
+    return out
+
+
+def _join(pieces):
+    if all(isinstance(q, str) for q in pieces):
+        return "".join(pieces)
+    ts = [z3.StringVal(q) if isinstance(q, str) else q for q in pieces]
+    return SStr(ts[0] if len(ts) == 1 else z3.Concat(*ts))
+
+
+def _inline_flags(pattern):
+    """pattern == "(?" ++ letters ++ ")" ++ p with letters from imsx  ->  (letters, p), else ("", pattern)"""
+    import re as _re
+
+    try:
+        ps = _pieces(pattern)
+    except Unsupported:
+        return "", pattern
+    if ps and isinstance(ps[0], str):
+        m = _re.match(r"\(\?([imsx]+)\)", ps[0])
+        if m and (len(ps) > 1 or m.end() <= len(ps[0])):
+            rest = [ps[0][m.end():]] + ps[1:] if ps[0][m.end():] else ps[1:]
+            return m.group(1), (_join(rest) if rest else "")
+    return "", pattern
+
+
 def _anchored_group(pattern):
     """pattern == "^(?:" ++ p ++ ")"  ->  p (as SStr), else None"""
+    from ..values import Fmt as _Fmt
+
+    if isinstance(pattern, _Fmt):
+        try:
+            ps = _pieces(pattern)
+        except Unsupported:
+            return None
+        if len(ps) >= 2 and isinstance(ps[0], str) and ps[0].startswith("^(?:") and isinstance(ps[-1], str) and ps[-1].endswith(")"):
+            mid = ([ps[0][4:]] if ps[0][4:] else []) + ps[1:-1] + ([ps[-1][:-1]] if ps[-1][:-1] else [])
+            return _join(mid) if mid else ""
+        return None
     if isinstance(pattern, str):
         if pattern.startswith("^(?:") and pattern.endswith(")"):
             return pattern[4:-1]
@@ -721,7 +800,7 @@ def _multi(e):
 
         return f
 
-    for nm in ("map_elements", "is_null", "not_", "eq", "ne", "gt", "ge", "lt", "le", "is_in", "all", "any", "is_duplicated", "is_not_null"):
+    for nm in ("map_elements", "is_null", "not_", "eq", "ne", "gt", "ge", "lt", "le", "is_in", "all", "any", "is_duplicated", "is_not_null", "fill_null", "fill_nan", "cast", "is_nan", "is_not_nan"):
         setattr(m, nm, wrap(nm))
     return m
 
@@ -798,7 +877,7 @@ def install(I):
 
     M = I.models
     M[id(pl.col)] = lambda I, *a: col(*a)
-    M[id(pl.lit)] = lambda I, v: lit(v)
+    M[id(pl.lit)] = lambda I, v, dtype=None, **kw: lit(v)
     M[id(pl.fold)] = lambda I, acc=None, function=None, exprs=None: fold(acc, function, exprs)
     M[id(pl.concat)] = lambda I, items, how="vertical", **kw: concat(items, how=how)
 
